@@ -79,17 +79,19 @@ int main(int argc, char **argv)
     }
     if (argc>=4 && !strcmp(argv[1],"exec")) {
         FILE *fi=fopen(argv[2],"r"),*fr=fopen(argv[3],"w"); if(!fi||!fr) return 2;
+        FILE *fo = argc>=5 ? fopen(argv[4],"w") : NULL; long eline=0;
         static char buf[1<<20]; static char *tok[1<<17];
         while (fgets(buf,sizeof buf,fi)) {
-            int nt=split(buf,tok,1<<17); if (nt<1) { fprintf(fr,"bad-op\n"); continue; }
+            int nt=split(buf,tok,1<<17); eline++; lineno_16=lineno_32=eline; if (nt<1) { fprintf(fr,"bad-op\n"); continue; }
             int ok=0;
             if (!strcmp(tok[0],"to16")) { int pos=1; pixman_region32_t A; pixman_region16_t D; pixman_region_init(&D); if (deser_32(tok,&pos,nt,&A)) { int r=pixman_region16_copy_from_region32(&D,&A); out_res_16(fr,r,&D); ok=1; } }
             else if (!strcmp(tok[0],"to32")) { int pos=1; pixman_region16_t A; pixman_region32_t D; pixman_region32_init(&D); if (deser_16(tok,&pos,nt,&A)) { int r=pixman_region32_copy_from_region16(&D,&A); out_res_32(fr,r,&D); ok=1; } }
-            else if (nt>=2 && atoi(tok[1])==16) ok=exec_16(tok,nt,fr);
-            else if (nt>=2 && atoi(tok[1])==32) ok=exec_32(tok,nt,fr);
+            else if (nt>=2 && atoi(tok[1])==16) ok=exec_16(tok,nt,fr,fo);
+            else if (nt>=2 && atoi(tok[1])==32) ok=exec_32(tok,nt,fr,fo);
             if (!ok) fprintf(fr,"bad-op\n");
             fflush(fr);
         }
+        if (fo) fclose(fo);
         return 0;
     }
     fprintf(stderr,"usage: region gen <seed> <n> <lim> <ops> <impl> <oracle> | region exec <ops> <impl>\n");
